@@ -4,7 +4,9 @@ import (
 	"encoding/json"
 	"fmt"
 	"os"
+	"path/filepath"
 	"strings"
+	"sync"
 
 	"verifsim/gen"
 	"verifsim/model"
@@ -12,7 +14,29 @@ import (
 	"verifsim/sdl"
 )
 
-func moreProps(m map[string]*propCfg) {}
+func moreProps(m map[string]*propCfg) {
+	add := func(p *propCfg) {
+		p.Real, p.Stub = realCommon, stubCommon
+		if p.Technique == "" {
+			p.Technique = "deterministic simulation: whole App.Run inside a testing/synctest bubble under a seeded serial scheduler; seeded search over generated programs x schedules x injected faults"
+		}
+		m[p.ID] = p
+	}
+	add(&propCfg{ID: "C03", Engine: "startsim", Level: "exploration", Families: []famShare{{gen.FamSubst, 1}}, QProgs: 240, QK: 8, TProgs: 640, TK: 24,
+		Rule: "generated cyclic and acyclic programs with a wrap plan (per substituted component: early only, before-init only, after-init only, before-instantiation, early+after with the same or with different substitutes; 1-2 substituting processors of all order classes); K schedules each. Non-trivial = a substitute was actually returned by a callback in that run; distinct = distinct (program shape, registry path signature)."})
+	add(&propCfg{ID: "C05", Engine: "startsim", Level: "exploration", Families: []famShare{{gen.FamLife, 1}}, QProgs: 200, QK: 6, TProgs: 640, TK: 16,
+		Rule: "generated DAGs / diamonds / cycles with tails, lazy-eager mixes, 1-4 observing post-processors of all classes and order classes, runners; K schedules each. Non-trivial = at least two Init events in the run; distinct = distinct (program shape, registry path signature)."})
+	add(&propCfg{ID: "C12", Engine: "startsim", Level: "exploration", Families: []famShare{{gen.FamLife, 1}}, QProgs: 200, QK: 6, TProgs: 640, TK: 16,
+		Rule: "generated programs with post-processors, runners (and simulated loaders) of all three order classes with Order values incl. ties, negatives and extremes; arrival order at the sorter permuted by the schedule; plus direct calls of the sorter on generated multisets. Non-trivial = >= 2 participants of one kind; distinct = distinct (program shape, registry path signature)."})
+	add(&propCfg{ID: "C13", Engine: "startsim", Level: "fault_enumeration", Families: []famShare{{gen.FamLife, 1}}, QProgs: 200, QK: 5, TProgs: 640, TK: 12,
+		Rule: "generated programs with 0-6 runners; K fault-free schedules; on the first three, every runner in turn is made to fail (exhaustive per explored schedule). Non-trivial = at least one runner ran; distinct = distinct (program shape, registry path signature, fault set)."})
+	add(&propCfg{ID: "C09", Engine: "startsim", Level: "fault_enumeration", Families: []famShare{{gen.FamWire, 0.4}, {gen.FamLife, 0.6}}, QProgs: 120, QK: 3, TProgs: 400, TK: 4,
+		Params: map[string]float64{"faultSchedules": 2, "faultPairs": 4}, TParams: map[string]float64{"faultSchedules": 3, "faultPairs": 12},
+		Rule: "per program and per explored schedule every callback site discovered by the fault-free run (Init, AfterPropertiesSet, each post-processor callback for each component incl. the container's own, runners excluded) is made to fail singly (exhaustive), plus sampled pairs; programs with unsatisfiable required / optional points are judged by the start-outcome model. Non-trivial = a fault fired or the model says must-fail; distinct = distinct (program shape, registry path signature, fault set)."})
+	add(&propCfg{ID: "C04", Engine: "startsim", Level: "fault_enumeration", Families: []famShare{{gen.FamWire, 0.45}, {gen.FamLife, 0.35}, {gen.FamSubst, 0.2}}, QProgs: 90, QK: 3, TProgs: 300, TK: 4,
+		Params: map[string]float64{"faultSchedules": 2}, TParams: map[string]float64{"faultSchedules": 3},
+		Rule: "three sources of histories: (1) regsim - generated creation trees driven directly against the real singleton cache, every failure position enumerated, continuation after the failure; (2) the tracer on real starts, fault-free and with every discovered callback site failing (transient and permanent); (3) GetComponentByName for every component on the same App after each failed start. Checked call by call against the reference state machine. Non-trivial = an early reference was produced or a fault fired; distinct = distinct (program shape / tree, path signature, fault set)."})
+}
 
 // corpus returns the structured programs that open the first batch of a property.
 func corpus(pc *propCfg, batchNo int, tier string) []*sdl.Program {
@@ -35,7 +59,7 @@ func makeOtherJobs(pc *propCfg, b *batch, tier string, seed uint64, batchNo, wor
 func attributeCrash(pc *propCfg, b *batch, wo *workerOut, job *proto.Job) (*proto.Finding, string) {
 	what := "crashed"
 	if wo.killed {
-		what = "made no progress for 180 s and was killed"
+		what = fmt.Sprintf("made no progress for %d s and was killed", stallLimitS)
 	}
 	msg := fmt.Sprintf("worker %d %s; last announced: %q\n%s\n", wo.idx, what, wo.last, clip(wo.err, 3000))
 	if pc.ID != "C02" && pc.ID != "C09" {
@@ -45,7 +69,18 @@ func attributeCrash(pc *propCfg, b *batch, wo *workerOut, job *proto.Job) (*prot
 	var idx int
 	var pid string
 	if _, err := fmt.Sscanf(wo.last, "prog %d %s", &idx, &pid); err != nil || idx >= len(b.progs) {
-		return nil, msg
+		if _, err := fmt.Sscanf(wo.last, "run %s", &pid); err != nil {
+			return nil, msg
+		}
+		idx = -1
+		for i, p := range b.progs {
+			if p.ID == pid {
+				idx = i
+			}
+		}
+		if idx < 0 {
+			return nil, msg
+		}
 	}
 	p := b.progs[idx]
 	c := &proto.Case{Property: pc.ID, Engine: "startsim", Prog: p}
@@ -163,7 +198,77 @@ func cmdGen(args []string) int {
 	return 0
 }
 
+// selftestDeterminism runs the same jobs in many separate processes under different
+// GOMAXPROCS values and demands bit-identical per-run hashes.
 func selftestDeterminism() int {
-	fmt.Println("determinism selftest: not built yet")
-	return 2
+	seed := seedFromEnv()
+	fams := []string{gen.FamWire, gen.FamSubst, gen.FamLife, gen.FamClose, gen.FamConfig, gen.FamEmbed}
+	var progs []*sdl.Program
+	n := envInt("VERIF_DET_PROGS", 48)
+	for i := 0; i < n; i++ {
+		progs = append(progs, gen.Generate(mix(seed, uint64(i)+77), fmt.Sprintf("P%d", i), fams[i%len(fams)]))
+	}
+	b, err := buildBatch(progs, false, "det")
+	if err != nil {
+		b.cleanup()
+		fmt.Println(err)
+		return 2
+	}
+	defer b.cleanup()
+	var idx []int
+	for i := range progs {
+		idx = append(idx, i)
+	}
+	procs := envInt("VERIF_DET_PROCS", 30)
+	gmp := []string{"1", "4", "16"}
+	var ref []any
+	bad := 0
+	runs := 0
+	for round := 0; round < procs; round += 6 {
+		var jobs []*proto.Job
+		for j := 0; j < 6 && round+j < procs; j++ {
+			jobs = append(jobs, &proto.Job{Mode: "trace", Batch: filepath.Join(b.dir, "batch.json"), ProgIdx: idx, K: 5, Seed: seed})
+		}
+		// each process gets its own GOMAXPROCS
+		outs := make([]*workerOut, len(jobs))
+		var wg sync.WaitGroup
+		for j := range jobs {
+			j := j
+			wg.Add(1)
+			go func() {
+				defer wg.Done()
+				outs[j] = runWorker(b, round+j, jobs[j], []string{"GOMAXPROCS=" + gmp[(round+j)%len(gmp)]}, 300)
+			}()
+		}
+		wg.Wait()
+		for j, wo := range outs {
+			if wo.res == nil || wo.res.Error != "" {
+				fmt.Printf("process %d: no result: %s\n", round+j, wo.err)
+				return 2
+			}
+			lines := wo.res.Stats.Samples
+			runs = len(lines)
+			if ref == nil {
+				ref = lines
+				continue
+			}
+			if len(lines) != len(ref) {
+				fmt.Printf("process %d (GOMAXPROCS=%s): %d runs vs %d\n", round+j, gmp[(round+j)%len(gmp)], len(lines), len(ref))
+				bad++
+				continue
+			}
+			for i := range lines {
+				if lines[i] != ref[i] {
+					fmt.Printf("process %d (GOMAXPROCS=%s): run %v differs from reference %v\n", round+j, gmp[(round+j)%len(gmp)], lines[i], ref[i])
+					bad++
+					break
+				}
+			}
+		}
+	}
+	fmt.Printf("determinism: %d processes x %d runs (%d programs, GOMAXPROCS 1/4/16), divergent processes: %d\n", procs, runs, len(progs), bad)
+	if bad != 0 {
+		return 2
+	}
+	return 0
 }
